@@ -400,3 +400,18 @@ Proof.
   unfold load_native_run. cbn [native_cache with_native]. rewrite !RequireInv.get_set, !zs_eqb_refl.
   destruct (zs_eqb name (node_prefix ++ name)); split; reflexivity.
 Qed.
+
+(* ---- package.json (C17): fetched at most once per Registry ---- *)
+(* reading a manifest that exists a second time - from another runtime of the same Registry, from another requiring directory,
+   or after it was compiled as a module - asks the SourceLoader nothing: the state (loader log included) does not move *)
+Theorem manifest_fetched_once fs st pk e : fs_get fs pk = Some e -> e <> FErr ->
+  let st1 := read_manifest fs st pk in
+  read_manifest fs st1 pk = st1 /\ (length (loader_log st1) <= S (length (loader_log st)))%nat.
+Proof.
+  intros He Hne st1. unfold st1, read_manifest at 2 3 4. rewrite He.
+  destruct (mem_zs pk (compiled st)) eqn:Em.
+  - split; [unfold read_manifest; rewrite Em; reflexivity|lia].
+  - assert (Hm : mem_zs pk (compiled (add_compiled (log_load st pk) pk)) = true).
+    { cbn [compiled add_compiled]. unfold mem_zs. cbn [existsb]. rewrite zs_eqb_refl. reflexivity. }
+    destruct e; try contradiction; (split; [unfold read_manifest; rewrite Hm; reflexivity|cbn; lia]).
+Qed.
